@@ -138,6 +138,22 @@ var (
 	rTextIVM  = Rule{"ORD-TEXTIVM", rules.OrdTextIVM}
 	rNibNext  = Rule{"TAB-NIBBLE-NEXT", rules.TabNibbleNext}
 	rDecNZ    = Rule{"ORD-DECNEGZERO", rules.OrdDecNegZero}
+	rFlagOr   = Rule{"NUM-FLAGOR", rules.NumFlagOr(rules.ScopeWriter, 4)}
+	rZeroSign = Rule{"NUM-ZEROSIGN", rules.NumZeroSign(rules.ScopeWriter, 1)}
+	rDecSign  = Rule{"ORD-DECSIGN", rules.OrdDecSign}
+	rBigDiv   = Rule{"NUM-BIGDIV", rules.NumBigDiv(rules.ScopeDecimal, 1)}
+	rIntSize  = Rule{"TAB-INTSIZE", rules.TabIntSize}
+	rOpenFl   = Rule{"TAB-OPENFLAGS", rules.TabOpenFlags}
+	rParamUse = Rule{"OWN-PARAMUSED", rules.OwnParamUsed}
+	rSepState = Rule{"ORD-SEPSTATE", rules.OrdSepState}
+	rExactFst = Rule{"ORD-EXACTFIRST", rules.OrdExactFirst}
+	rStopChar = Rule{"OWN-STOPCHAR", rules.OwnStopChar}
+	rWSSet    = Rule{"TAB-WSSET", rules.TabWSSet(rules.ScopeText, 3)}
+	rAppEach  = Rule{"ORD-APPENDEACH", rules.OrdAppendEach}
+	rLSTAnn   = Rule{"TAB-LSTFIRSTANN", rules.TabLSTFirstAnn}
+	rBSClear  = Rule{"ORD-BSCLEAR", rules.OrdBSClear}
+	rTokFin   = Rule{"ORD-TOKFINISH", rules.OrdTokFinish}
+	rAccType  = Rule{"TAB-ACCTYPE", rules.TabAccType}
 	rFixedLST = Rule{"OWN-FIXEDLST", rules.OwnFixedLST}
 	rReflSet  = Rule{"TAB-REFLECTSET", rules.TabReflectSet}
 	rBounds   = Rule{"TAB-BOUNDS", rules.TabBounds}
@@ -160,47 +176,51 @@ const tabTech = "constant-table extraction from SSA (enum value-set dataflow ove
 
 var registry = map[string]*Property{
 	"C01": {
-		Decided:    "The finite tables of the writers and the readers are inverse of each other: every single-letter escape the text writer spells is mapped back to the same byte by the text reader and the needs-escaping tests cover delimiter, backslash and control characters (TAB-ESCAPE, writer obligations); typed-null spellings written = names the reader dispatches on = the 13 Ion type names (TAB-NULLKW); identifier-shaped text with a non-symbol meaning is quoted when written as a symbol (TAB-KEYWORD); binary type codes, per-code value types, float sizes and typed-null bytes equal the Ion 1.0 tables (TAB-TYPECODE); every value the writers open is closed on each success path, annotation wrappers included (ORD-VALUE); in Finish the version marker precedes the symbol table, which precedes the buffered values (ORD-LSTFIRST); every length the binary writer declares is computed with the codec, and for the operand, that the payload is appended with (TAB-LENPAY); each binary field uses the codec family Ion 1.0 prescribes on the writing and on the reading side (TAB-CODEC); a symbol token's text is never reinterpreted as a '$n' ID nor replaced by the token's source SID when written (OWN-TEXTAUTH).",
+		Decided:    "The finite tables of the writers and the readers are inverse of each other: every single-letter escape the text writer spells is mapped back to the same byte by the text reader and the needs-escaping tests cover delimiter, backslash and control characters (TAB-ESCAPE, writer obligations); typed-null spellings written = names the reader dispatches on = the 13 Ion type names (TAB-NULLKW); identifier-shaped text with a non-symbol meaning is quoted when written as a symbol (TAB-KEYWORD); binary type codes, per-code value types, float sizes and typed-null bytes equal the Ion 1.0 tables (TAB-TYPECODE); every value the writers open is closed on each success path, annotation wrappers included (ORD-VALUE); in Finish the version marker precedes the symbol table, which precedes the buffered values (ORD-LSTFIRST); every length the binary writer declares is computed with the codec, and for the operand, that the payload is appended with (TAB-LENPAY); each binary field uses the codec family Ion 1.0 prescribes on the writing and on the reading side (TAB-CODEC); a symbol token's text is never reinterpreted as a '$n' ID nor replaced by the token's source SID when written (OWN-TEXTAUTH). A flag bit ORed onto a VarUInt/VarInt octet never overlaps the payload (NUM-FLAGOR); a float is classified as zero on the output side only together with its sign bit (NUM-ZEROSIGN); no function that distinguishes negative zero decides a Decimal's sign from its coefficient where the flag may be set (ORD-DECSIGN).",
 		Necessary:  "A byte escaped as \\X that the reader maps elsewhere, a typed null spelled with another type's name, a reserved word written unquoted, a type code decoded as another type, an unclosed 0xE0 wrapper or a table emitted after its values each change or lose a value named in the property's quantifier.",
 		NotDecided: "payload encodings (ints, floats, decimals, timestamps), xLen = len(appendX), float/decimal/timestamp formatting; each codec's own length function (len(appendX(v)) = xLen(v))",
-		Technique:  tabTech + "; CFG/SSA pairing for ORD; " + "codec-family pairing (length function vs append function per operand, by SSA path) and codec tables compared with Ion 1.0" + "; call-graph fixed point and value flow for OWN-TEXTAUTH",
+		Technique:  tabTech + "; CFG/SSA pairing for ORD; " + "codec-family pairing (length function vs append function per operand, by SSA path) and codec tables compared with Ion 1.0" + "; call-graph fixed point and value flow for OWN-TEXTAUTH" + "; interval check of flag/payload bit overlap (NUM-FLAGOR, with field invariants from every store to an unexported field); dominance of float-zero tests by Signbit tests",
 		DesignRef:  "DESIGN.md §3.4, §3.5, §4 C01",
 		Rules: []Rule{
 			only(rEscape, 18, whatHas("writer:")), rNullKW, rKeyword, rTypecode, rOrdValue, rOrdLstFirst,
 			rLenPay, rCodec, rTextAuth,
+			rFlagOr, rZeroSign, rDecSign,
 		},
 	},
 	"C02": {
-		Decided:    "The text reader's finite tables equal the Ion 1.0 text tables: every escape with its code point and digit count, \\u and \\U refused inside clobs (TAB-ESCAPE, reader obligations); the 13 null.<type> names (TAB-NULLKW, reader obligations); every token the tokenizer can hand out at the start of a value has an arm in the reader's value dispatch (TAB-TOKEN, value arms); inside {{ }} no comment-skipping whitespace routine is reachable, so base64 text containing '//' or '/*' decodes (OWN-LOBWS); no comparison treats symbol ID 0 ($0) differently from the positive IDs (TAB-SID0); the timestamp parser separates second precision, nanosecond precision (up to nine digits) and rounding, and valid from invalid offsets, at the indices and values the grammar prescribes (TAB-BOUNDS, text timestamp obligations).",
+		Decided:    "The text reader's finite tables equal the Ion 1.0 text tables: every escape with its code point and digit count, \\u and \\U refused inside clobs (TAB-ESCAPE, reader obligations); the 13 null.<type> names (TAB-NULLKW, reader obligations); every token the tokenizer can hand out at the start of a value has an arm in the reader's value dispatch (TAB-TOKEN, value arms); inside {{ }} no comment-skipping whitespace routine is reachable, so base64 text containing '//' or '/*' decodes (OWN-LOBWS); no comparison treats symbol ID 0 ($0) differently from the positive IDs (TAB-SID0); the timestamp parser separates second precision, nanosecond precision (up to nine digits) and rounding, and valid from invalid offsets, at the indices and values the grammar prescribes (TAB-BOUNDS, text timestamp obligations). Every function of the text tokenizer that recognises whitespace by comparing with ' ' and another whitespace character tests space, tab and line feed (TAB-WSSET); every caller of the comment-blind free function isStopChar looks for '/' itself (OWN-STOPCHAR).",
 		Necessary:  "An escape decoded to another code point, a null.<type> name mapped to another type, or a value-start token without a dispatch arm makes a legal spelling decode to another value or to an error.",
 		NotDecided: "number, string-segmentation, comment/whitespace and timestamp grammar (behaviour of loops over characters); $n handling",
-		Technique:  tabTech + "; who-may-call check for the lob whitespace routines; spelling-insensitive boundary extraction for TAB-BOUNDS",
+		Technique:  tabTech + "; who-may-call check for the lob whitespace routines; spelling-insensitive boundary extraction for TAB-BOUNDS" + "; constant-set agreement of whitespace tests; who-may-call for isStopChar",
 		DesignRef:  "DESIGN.md §3.4, §4 C02",
 		Rules: []Rule{
 			only(rEscape, 18, whatHas("reader:")), only(rNullKW, 13, whatHas("reader:")), only(rToken, 14, whatHas("value arm")), rLobWS, rSid0, only(rBounds, 6, funcHas("ParseTimestamp", "computeTimezoneKind", "isIonYear")),
+			rWSSet, rStopChar,
 		},
 	},
 	"C03": {
-		Decided:    "The binary reader's type-code table, the value type stored for each type code and the accepted float sizes equal the Ion 1.0 tables (TAB-TYPECODE, reader obligations); validateAnnotatedValue special-cases exactly the type codes whose low nibble bitstream.Next does not read as a body length, so a wrapper around true/false or a sorted struct is measured correctly (TAB-NIBBLE); each field is decoded with the primitive Ion 1.0 prescribes (TAB-CODEC, reader obligations); the VarUInt/VarInt accumulators cannot drop high bits and every narrowing in the bitstream and binary reader is in range (NUM-SHIFT, NUM-NARROW, bitstream obligations); bytes handed to the caller never alias the read buffer (OWN-INPUT, Peek obligations); every value decoder consumes exactly the declared length of the current value (TAB-BUDGET); once Next has replaced the tag's nibble by a decoded length it no longer reads 14 and 15 as 'length follows' and 'null' (TAB-NIBBLE-NEXT); a decimal's negative-zero flag comes from the coefficient's sign bit (ORD-DECNEGZERO); no unsigned length or position subtraction in the bitstream can wrap below zero (NUM-USUB).",
+		Decided:    "The binary reader's type-code table, the value type stored for each type code and the accepted float sizes equal the Ion 1.0 tables (TAB-TYPECODE, reader obligations); validateAnnotatedValue special-cases exactly the type codes whose low nibble bitstream.Next does not read as a body length, so a wrapper around true/false or a sorted struct is measured correctly (TAB-NIBBLE); each field is decoded with the primitive Ion 1.0 prescribes (TAB-CODEC, reader obligations); the VarUInt/VarInt accumulators cannot drop high bits and every narrowing in the bitstream and binary reader is in range (NUM-SHIFT, NUM-NARROW, bitstream obligations); bytes handed to the caller never alias the read buffer (OWN-INPUT, Peek obligations); every value decoder consumes exactly the declared length of the current value (TAB-BUDGET); once Next has replaced the tag's nibble by a decoded length it no longer reads 14 and 15 as 'length follows' and 'null' (TAB-NIBBLE-NEXT); a decimal's negative-zero flag comes from the coefficient's sign bit (ORD-DECNEGZERO); no unsigned length or position subtraction in the bitstream can wrap below zero (NUM-USUB). The symbols list of a local symbol table yields one entry per element on every path round its loop (ORD-APPENDEACH); a struct is taken for a symbol table by its first annotation only (TAB-LSTFIRSTANN); leaving a value always passes clear() (ORD-BSCLEAR).",
 		Necessary:  "A type code decoded as another type, a refused float size, or a wrapper length check that misreads a bool's nibble (finding F13, fixed) rejects or misdecodes a valid encoding.",
 		NotDecided: "VarUInt/VarInt arithmetic, padding, NOP handling, struct ordering, lengths (behavioural); TAB-BUDGET of the design was not built",
-		Technique:  tabTech + "; " + "codec-family pairing (length function vs append function per operand, by SSA path) and codec tables compared with Ion 1.0" + "; " + numTech + "; escape walk of bufio.Reader.Peek results",
+		Technique:  tabTech + "; " + "codec-family pairing (length function vs append function per operand, by SSA path) and codec tables compared with Ion 1.0" + "; " + numTech + "; escape walk of bufio.Reader.Peek results" + "; must-pass-through (append per loop iteration; clear() after a state store)",
 		DesignRef:  "DESIGN.md §3.4, §4 C03",
 		Rules: []Rule{
 			only(rTypecode, 30, whatLacks("binaryNulls[")), rNibble,
 			only(rCodec, 8, whatHas("decode")), only(rShift, 5, posHas("ion/bitstream.go")), only(rNarrow, 15, posHas("ion/bitstream.go", "ion/binaryreader.go")),
 			only(rOwnInput, 2, whatHas("slice returned by Peek")), rBudget, rNibNext, rDecNZ, only(rUSub, 8, posHas("ion/bitstream.go")),
+			rAppEach, rLSTAnn, rBSClear,
 		},
 	},
 	"C04": {
-		Decided:    "Binary typed-null bytes written equal the Ion 1.0 table (TAB-TYPECODE, writer obligations); text typed-null spellings are the 13 Ion type names (TAB-NULLKW, writer obligations); every single-letter escape the text writer spells denotes the written byte in the Ion 1.0 escape table, and the needs-escaping tests of strings, symbols and clobs cover delimiter, backslash, control characters and non-ASCII for clobs (TAB-ESCAPE, writer-vs-spec and predicate obligations); keywords are quoted when written as symbols (TAB-KEYWORD); every opened value/container/annotation wrapper is closed on each success path (ORD-VALUE); version marker before symbol table before values, fixed table before the first value (ORD-LSTFIRST); every declared length is computed with the codec and operand the payload is appended with, across the xLen/appendX and Len/EmitTo sibling pairs too (TAB-LENPAY); each field uses the codec Ion 1.0 prescribes (TAB-CODEC, writer obligations); no value is narrowed out of range on its way into the encoders, in particular no negative symbol ID (NUM-NARROW, writer files); IDs written come from this writer's table by text (OWN-TEXTAUTH, writer obligations).",
+		Decided:    "Binary typed-null bytes written equal the Ion 1.0 table (TAB-TYPECODE, writer obligations); text typed-null spellings are the 13 Ion type names (TAB-NULLKW, writer obligations); every single-letter escape the text writer spells denotes the written byte in the Ion 1.0 escape table, and the needs-escaping tests of strings, symbols and clobs cover delimiter, backslash, control characters and non-ASCII for clobs (TAB-ESCAPE, writer-vs-spec and predicate obligations); keywords are quoted when written as symbols (TAB-KEYWORD); every opened value/container/annotation wrapper is closed on each success path (ORD-VALUE); version marker before symbol table before values, fixed table before the first value (ORD-LSTFIRST); every declared length is computed with the codec and operand the payload is appended with, across the xLen/appendX and Len/EmitTo sibling pairs too (TAB-LENPAY); each field uses the codec Ion 1.0 prescribes (TAB-CODEC, writer obligations); no value is narrowed out of range on its way into the encoders, in particular no negative symbol ID (NUM-NARROW, writer files); IDs written come from this writer's table by text (OWN-TEXTAUTH, writer obligations). A flag bit ORed onto a VarUInt/VarInt octet never overlaps the payload (NUM-FLAGOR); a float is classified as zero only together with its sign bit (NUM-ZEROSIGN); negative zero's sign is never taken from the coefficient (ORD-DECSIGN); the text writer forgets an owed separator only on a path that writes to the output (ORD-SEPSTATE).",
 		Necessary:  "Each clause is checked against the specification embedded in the checker, not against this repository's reader: a wrong null byte or name, a raw delimiter, an unquoted keyword, an unclosed wrapper (declared length never patched) or a table after its values is ill-formed or denotes another value under any conforming decoder.",
 		NotDecided: "each codec's own length function (len(appendX(v)) = xLen(v) is arithmetic), separators and number formatting of the text writer",
-		Technique:  tabTech + "; CFG/SSA pairing for ORD; " + "codec-family pairing (length function vs append function per operand, by SSA path) and codec tables compared with Ion 1.0" + "; " + numTech,
+		Technique:  tabTech + "; CFG/SSA pairing for ORD; " + "codec-family pairing (length function vs append function per operand, by SSA path) and codec tables compared with Ion 1.0" + "; " + numTech + "; interval check of flag/payload bit overlap; must-pass-through of an output write around separator-state resets",
 		DesignRef:  "DESIGN.md §3.4, §3.5, §4 C04",
 		Rules: []Rule{
 			only(rTypecode, 13, whatHas("binaryNulls[")), only(rNullKW, 13, whatHas("writer:")), only(rEscape, 20, whatHas("escapes when", "writer-vs-spec:")), rKeyword, rOrdValue, rOrdLstFirst,
 			rLenPay, only(rCodec, 25, whatLacks("decode")), only(rNarrow, 30, posHas("ion/binarywriter.go", "ion/bits.go", "ion/buf.go")), only(rTextAuth, 2, posHas("ion/binarywriter.go")),
+			rFlagOr, rZeroSign, rDecSign, rSepState,
 		},
 	},
 	"C05": {
@@ -235,12 +255,12 @@ var registry = map[string]*Property{
 		},
 	},
 	"C08": {
-		Decided:    "Every Reader method exit that refuses a call (returns a fresh *UsageError) is free of side effects on the reader (REFUSE-PURE); every token the tokenizer hands out as an unfinished value has a skip arm (TAB-TOKEN, skip arms); StepIn enters a nesting level only for a non-null container in both implementations (ORD-STEPIN); none of the lob readers and skippers reaches the comment-skipping whitespace routine, so skip and read agree that '/' inside {{ }} is data (OWN-LOBWS); in binary, reading a value and skipping it hand the same declared length to the primitive readers, so both end at the same byte (TAB-BUDGET).",
+		Decided:    "Every Reader method exit that refuses a call (returns a fresh *UsageError) is free of side effects on the reader (REFUSE-PURE); every token the tokenizer hands out as an unfinished value has a skip arm (TAB-TOKEN, skip arms); StepIn enters a nesting level only for a non-null container in both implementations (ORD-STEPIN); none of the lob readers and skippers reaches the comment-skipping whitespace routine, so skip and read agree that '/' inside {{ }} is data (OWN-LOBWS); in binary, reading a value and skipping it hand the same declared length to the primitive readers, so both end at the same byte (TAB-BUDGET). Every bitstream method that leaves a value passes clear() on each path to a successful exit (ORD-BSCLEAR); the text reader's raw scan for a container's end starts only when the tokenizer has no unfinished value (ORD-TOKFINISH).",
 		Necessary:  "A refused StepIn/StepOut/accessor that changes cursor state, or a value kind that cannot be skipped, makes later results depend on the navigation.",
 		NotDecided: "agreement of skip and read on where an arbitrary value ends (finding F17, clob text containing '}', was repaired but no rule would detect its return)",
-		Technique:  ssaTech + "; " + tabTech + "; enum value-set and nil-fact dominance at nesting-level pushes; who-may-call check for the lob whitespace routines",
+		Technique:  ssaTech + "; " + tabTech + "; enum value-set and nil-fact dominance at nesting-level pushes; who-may-call check for the lob whitespace routines" + "; must-pass-through of clear() after state stores; typestate of the tokenizer's unfinished flag (finisher summaries by fixed point) before a raw scan",
 		DesignRef:  "DESIGN.md §3.1, §3.4, §4 C08",
-		Rules:      []Rule{rRefuse, only(rToken, 13, whatHas("skip arm")), rStepIn, rLobWS, rBudget},
+		Rules:      []Rule{rRefuse, only(rToken, 13, whatHas("skip arm")), rStepIn, rLobWS, rBudget, rBSClear, rTokFin},
 	},
 	"C09": {
 		Decided:    "Every insertion into a symbol text index (buildIndex, symbolTableBuilder.Add, Build) happens only when the text is not present yet, with imports consulted before locals, or copies an existing index (ORD-FIRSTWINS); NewSymbolTokenBySID looks an ID up only after 0 <= sid <= MaxID() was established and rejects everything else (ORD-SIDBOUND); a local table resolves text through its imports before its own index on every path (ORD-IMPORTFIRST); Build neither writes to the builder nor hands the builder's own symbols/index storage to the built table (OWN-BUILD); every table object is built with an index that describes exactly the symbols it holds (TAB-INDEXPAIR).",
@@ -251,47 +271,48 @@ var registry = map[string]*Property{
 		Rules:      []Rule{rOrdFirstWins, rOrdSidBound, rImpFirst, rBuild, rIdxPair},
 	},
 	"C10": {
-		Decided:    "Every successful path of binaryReader.readBVM resets the context to the system table (ORD-BVMRESET); the text reader recognises an unquoted top-level $ion_1_0, resets the context on that edge and does not surface it as a value (ORD-TEXTIVM); once a top-level struct is recognised as $ion_symbol_table every exit reports 'not a user value' or an error (ORD-LSTHIDE); the symbol table reader dereferences accessor results only under the non-null precondition, so typed nulls in imports/name/version/max_id/symbols do not crash it (NIL-ACC scoped to readlocalsymboltable.go); every Reader field that can hold a resolved token is reset per value or after every assignment of the current table, so no token outlives the table it was resolved in (OWN-TOKCACHE); an import's declared max_id counts as declared from 0 upwards — only a negative or absent one falls back to the catalog (TAB-BOUNDS, readImport).",
+		Decided:    "Every successful path of binaryReader.readBVM resets the context to the system table (ORD-BVMRESET); the text reader recognises an unquoted top-level $ion_1_0, resets the context on that edge and does not surface it as a value (ORD-TEXTIVM); once a top-level struct is recognised as $ion_symbol_table every exit reports 'not a user value' or an error (ORD-LSTHIDE); the symbol table reader dereferences accessor results only under the non-null precondition, so typed nulls in imports/name/version/max_id/symbols do not crash it (NIL-ACC scoped to readlocalsymboltable.go); every Reader field that can hold a resolved token is reset per value or after every assignment of the current table, so no token outlives the table it was resolved in (OWN-TOKCACHE); an import's declared max_id counts as declared from 0 upwards — only a negative or absent one falls back to the catalog (TAB-BOUNDS, readImport). The symbols list of a local symbol table yields one entry per element (ORD-APPENDEACH); a struct is a symbol table by its first annotation only (TAB-LSTFIRSTANN).",
 		Necessary:  "A version marker that keeps the old table, a table struct surfacing as a user value, or a panic on a typed null in a table slot (F8, fixed) each break resolution against the table in force.",
 		NotDecided: "append/replace semantics, catalog fallback order, max_id trimming/padding",
-		Technique:  "SSA must-pass-through and nil-fact dataflow; forward path search from every assignment of the current table to an exit (token-holding fields); boundary extraction",
+		Technique:  "SSA must-pass-through and nil-fact dataflow; forward path search from every assignment of the current table to an exit (token-holding fields); boundary extraction" + "; must-pass-through (append per loop iteration); index-constant check of the annotation compared",
 		DesignRef:  "DESIGN.md §3.2, §3.5, §4 C10",
-		Rules:      []Rule{rOrdBVMReset, rOrdLstHide, {"NIL-ACC", rules.NilAcc(rules.ScopeLST, 4)}, rTokCache, only(rBounds, 1, funcHas("readImport")), rTextIVM},
+		Rules:      []Rule{rOrdBVMReset, rOrdLstHide, {"NIL-ACC", rules.NilAcc(rules.ScopeLST, 4)}, rTokCache, only(rBounds, 1, funcHas("readImport")), rTextIVM, rAppEach, rLSTAnn},
 	},
 	"C11": {
-		Decided:    "The field names and the annotation the symbol table writer emits are exactly those the symbol table reader dispatches on, max_id included (TAB-LSTFIELDS); the fixed/imported table is written before the first value (ORD-LSTFIRST); the builder consults imports and existing entries before defining a local symbol (ORD-FIRSTWINS); token text reaches the table lookup as it is — never through the '$n' interpretation, which would bypass a fixed table's 'not defined' error and emit an arbitrary ID (OWN-TEXTAUTH, binary writer obligations); with a fixed table, text it does not define ends in a non-nil error (OWN-FIXEDLST).",
+		Decided:    "The field names and the annotation the symbol table writer emits are exactly those the symbol table reader dispatches on, max_id included (TAB-LSTFIELDS); the fixed/imported table is written before the first value (ORD-LSTFIRST); the builder consults imports and existing entries before defining a local symbol (ORD-FIRSTWINS); token text reaches the table lookup as it is — never through the '$n' interpretation, which would bypass a fixed table's 'not defined' error and emit an arbitrary ID (OWN-TEXTAUTH, binary writer obligations); with a fixed table, text it does not define ends in a non-nil error (OWN-FIXEDLST). No exported function of package ion ignores one of its named parameters, so shared tables, catalogs and options handed to a constructor or Marshal helper reach the writer (OWN-PARAMUSED).",
 		Necessary:  "An import declaration the reader does not understand leaves every imported ID unresolvable; a table after the first value or a local redefinition of imported text emits IDs the stream does not (minimally) define.",
 		NotDecided: "ID arithmetic across imports; minimality of the emitted table beyond lookup-before-add",
-		Technique:  tabTech + "; SSA dominance for ORD; call-graph fixed point and value flow for OWN-TEXTAUTH; copy-source and path search rules for the builder and the writer",
+		Technique:  tabTech + "; SSA dominance for ORD; call-graph fixed point and value flow for OWN-TEXTAUTH; copy-source and path search rules for the builder and the writer" + "; SSA referrer check of exported functions' parameters",
 		DesignRef:  "DESIGN.md §3.4, §3.5, §4 C11",
-		Rules:      []Rule{rLstFields, rOrdLstFirst, rOrdFirstWins, only(rTextAuth, 2, posHas("ion/binarywriter.go")), rImpFirst, rBuild, rWrCache, rIdxPair, rFixedLST},
+		Rules:      []Rule{rLstFields, rOrdLstFirst, rOrdFirstWins, only(rTextAuth, 2, posHas("ion/binarywriter.go")), rImpFirst, rBuild, rWrCache, rIdxPair, rFixedLST, rParamUse},
 	},
 	"C12": {
-		Decided:    "For all 24 error-returning Writer methods on each writer implementation: the sticky error is tested before any effect on the writer (ERR-GUARD-W) and every returned error is the sticky error (ERR-STICKY-W); every value opened is closed on each success path (ORD-VALUE); Finish re-arms the binary writer before every success exit (ORD-REARM); every panicking pop on the writer-side stacks is dominated by a non-emptiness fact (ORD-POPGUARD, writer obligations); nothing in the writer implementation reachable from the Writer methods consults a time-, random- or schedule-dependent source and every map range there has an order-insensitive body (OWN-NONDET, functions outside marshal.go, fields.go and the command); an exit that refuses a call with an unrecorded UsageError (Finish away from the top level) is reached before any effect on the writer (REFUSE-PURE-W); closing a container reaches clear() before every exit that may succeed, so a pending field name or annotation never leaks to a later value (ORD-ENDCLEAR); the binary writer keeps no text-to-ID memory that outlives its symbol table builder (OWN-WRCACHE).",
+		Decided:    "For all 24 error-returning Writer methods on each writer implementation: the sticky error is tested before any effect on the writer (ERR-GUARD-W) and every returned error is the sticky error (ERR-STICKY-W); every value opened is closed on each success path (ORD-VALUE); Finish re-arms the binary writer before every success exit (ORD-REARM); every panicking pop on the writer-side stacks is dominated by a non-emptiness fact (ORD-POPGUARD, writer obligations); nothing in the writer implementation reachable from the Writer methods consults a time-, random- or schedule-dependent source and every map range there has an order-insensitive body (OWN-NONDET, functions outside marshal.go, fields.go and the command); an exit that refuses a call with an unrecorded UsageError (Finish away from the top level) is reached before any effect on the writer (REFUSE-PURE-W); closing a container reaches clear() before every exit that may succeed, so a pending field name or annotation never leaks to a later value (ORD-ENDCLEAR); the binary writer keeps no text-to-ID memory that outlives its symbol table builder (OWN-WRCACHE). The text writer forgets an owed separator only on a path that writes to the output (ORD-SEPSTATE).",
 		Necessary:  "A method that works after an earlier error or returns an error it does not remember lets a later Finish return nil (F1–F3, fixed); an unclosed value or a Finish that is not re-armed emits an invalid stream on a nil Finish (F4, fixed); an unguarded pop panics on an illegal call sequence; a nondeterminism source makes the same calls yield different bytes.",
 		NotDecided: "validity of the emitted stream beyond pairing (see C04), nil pointer arguments, WriteNullType with an out-of-range Type (finding F23, TAB-INDEX not built)",
-		Technique:  ssaTech + "; forward path search to exits for ORD-ENDCLEAR / OWN-WRCACHE / REFUSE-PURE-W",
+		Technique:  ssaTech + "; forward path search to exits for ORD-ENDCLEAR / OWN-WRCACHE / REFUSE-PURE-W" + "; must-pass-through of an output write around separator-state resets",
 		DesignRef:  "DESIGN.md §3.1, §3.5, §3.6, §4 C12",
 		Rules: []Rule{
 			rGuardW, rStickyW, rOrdValue, rOrdRearm, only(rOrdPopGuard, 2, funcHas("Writer", "writer")), only(rOwnNondet, 40, posLacks("ion/marshal.go", "ion/fields.go", "cmd/")), rRefuseW, rEndClear, rWrCache,
+			rSepState,
 		},
 	},
 	"C13": {
-		Decided:     "On the numeric data path of package ion (every file that carries a number, length, symbol ID, exponent or calendar field between the API and the bytes): every integer conversion that can lose value bits or the sign has an operand interval inside the target type, or is the sign-magnitude idiom, or hands its result only to a callee that rejects the wrapped values, or is one of 5 residual rows with a reason (NUM-NARROW); every left shift keeps all value bits — in particular the 7-bits-per-byte VarUInt/VarInt accumulators are checked before each shift (NUM-SHIFT, 2 residual rows: fixed-width loops); every big.Int.Int64()/Uint64() is dominated by IsInt64()/IsUint64() on the same unmodified receiver (NUM-BIG); every float64→float32 narrowing is the losslessness test or dominated by it (NUM-F32); ints and symbol IDs are written as, and read from, the unsigned-magnitude codec Ion 1.0 prescribes — never the sign-magnitude Int subfield decoder (TAB-CODEC, int and symbol obligations); IntSize and IntValue draw the int32 boundary at exactly 2^31 and -2^31-1 (TAB-BOUNDS, accessor obligations).",
+		Decided:     "On the numeric data path of package ion (every file that carries a number, length, symbol ID, exponent or calendar field between the API and the bytes): every integer conversion that can lose value bits or the sign has an operand interval inside the target type, or is the sign-magnitude idiom, or hands its result only to a callee that rejects the wrapped values, or is one of 5 residual rows with a reason (NUM-NARROW); every left shift keeps all value bits — in particular the 7-bits-per-byte VarUInt/VarInt accumulators are checked before each shift (NUM-SHIFT, 2 residual rows: fixed-width loops); every big.Int.Int64()/Uint64() is dominated by IsInt64()/IsUint64() on the same unmodified receiver (NUM-BIG); every float64→float32 narrowing is the losslessness test or dominated by it (NUM-F32); ints and symbol IDs are written as, and read from, the unsigned-magnitude codec Ion 1.0 prescribes — never the sign-magnitude Int subfield decoder (TAB-CODEC, int and symbol obligations); IntSize and IntValue draw the int32 boundary at exactly 2^31 and -2^31-1 (TAB-BOUNDS, accessor obligations). Under each case of a switch over IntSize() the accessor reached is wide enough for that case (TAB-INTSIZE); no typed accessor answers successfully before the value's type was read (TAB-ACCTYPE).",
 		Necessary:   "Each rule instance is a place where Go silently wraps, truncates or rounds: uint64(negative SID) (F25, fixed), int(VarUInt >= 2^63) as a year (fixed), a 10-byte VarUInt losing its top bits (fixed), Int64() of a 70-bit coefficient (F19, fixed), float32(x) without the equality test. An unchecked instance on the data path is a number that changes without an error.",
 		NotDecided:  "the arithmetic inside each codec loop (bytes assembled in the right order), typed-null/usage-error behaviour of accessors (NIL-ACC under C06 covers the nil dereference side only); trip counts of the two fixed-width loops in ReadInt/ReadSymbolID (residual rows)",
-		Technique:   numTech,
+		Technique:   numTech + "; enum value-set dataflow of IntSize() against accessor width; path search for a type read before successful exits of accessors",
 		DesignRef:   "DESIGN.md §3.3, §4 C13, §0.7",
 		Assumptions: []string{"int is 64 bits (linux/amd64, the analysed configuration)", "len/cap of a string or slice is at most 2^48 (runtime.maxAlloc on 64-bit platforms)", "documented result ranges of time.Time accessors, strconv.ParseInt(_, _, N), io.ReadFull, bufio.Reader.Discard, math/big.Int.BitLen"},
-		Rules:       []Rule{rNarrow, rShift, rBig, rF32, only(rCodec, 12, funcHas("ReadInt", "ReadSymbolID", "WriteInt", "WriteUint", "WriteSymbol", "writeSymbolFromID")), only(rBounds, 5, funcHas("IntValue", "IntSize", "ReadSymbolID"))},
+		Rules:       []Rule{rNarrow, rShift, rBig, rF32, only(rCodec, 12, funcHas("ReadInt", "ReadSymbolID", "WriteInt", "WriteUint", "WriteSymbol", "writeSymbolFromID")), only(rBounds, 5, funcHas("IntValue", "IntSize", "ReadSymbolID")), rIntSize, rAccType},
 	},
 	"C14": {
-		Decided:    "Exponent arithmetic never wraps silently where this can be decided: every +, -, * and unary minus carried out in a type narrower than 64 bits (the decimal scale is an int32) has a result interval inside the type (NUM-EXP32) — Mul, ShiftL, ShiftR and ParseDecimal widen to int64, check the range and narrow; every narrowing in decimal.go has an in-range operand (NUM-NARROW, decimal.go obligations); no floating-point value takes part in Add, Sub, Mul, Neg, Abs, ShiftL, ShiftR, Cmp, Equal, Sign, Truncate, String, CoEx, ParseDecimal, NewDecimal or anything they call in the module (NUM-NOFLOAT).",
+		Decided:    "Exponent arithmetic never wraps silently where this can be decided: every +, -, * and unary minus carried out in a type narrower than 64 bits (the decimal scale is an int32) has a result interval inside the type (NUM-EXP32) — Mul, ShiftL, ShiftR and ParseDecimal widen to int64, check the range and narrow; every narrowing in decimal.go has an in-range operand (NUM-NARROW, decimal.go obligations); no floating-point value takes part in Add, Sub, Mul, Neg, Abs, ShiftL, ShiftR, Cmp, Equal, Sign, Truncate, String, CoEx, ParseDecimal, NewDecimal or anything they call in the module (NUM-NOFLOAT). No function that distinguishes negative zero decides a Decimal's sign from an order test of its coefficient where the flag may be set (ORD-DECSIGN); every big.Int division in decimal.go is the truncating kind or has an Abs dividend (NUM-BIGDIV).",
 		Necessary:  "'0.1d-2147483648' parsed as 1d2147483647 because the fraction digits were subtracted from the exponent in int32 (F20, fixed: bbed24c). A float in an exact operation rounds. The four negations of the int32 scale (NewDecimal, CoEx, String x2) are a genuine, recorded defect at exponent -2^31 (known finding F20b: the value cannot be represented because the struct stores -exponent in an int32; ShiftL(1) on it panics).",
 		NotDecided: "algebraic exactness of the big.Int arithmetic after rescaling, the three text layouts of String, Truncate's digit arithmetic, negative-zero propagation — arithmetic over unbounded runtime values; this is the weakest claim of the set",
-		Technique:  numTech + "; call-graph closure for NUM-NOFLOAT",
+		Technique:  numTech + "; call-graph closure for NUM-NOFLOAT" + "; branch-fact dataflow on isNegZero at coefficient sign tests; callee classification of big.Int division",
 		DesignRef:  "DESIGN.md §3.3, §4 C14, §0.7",
-		Rules:      []Rule{rExp32, rNoFloat, only(rNarrow, 5, posHas("ion/decimal.go"))},
+		Rules:      []Rule{rExp32, rNoFloat, only(rNarrow, 5, posHas("ion/decimal.go")), rDecSign, rBigDiv},
 	},
 	"C15": {
 		Decided:    "Calendar validation compares every field it hands to time.Date (which normalises month 13, day 32, hour 24, minute/second 60 instead of rejecting them) with the matching accessor of the result before every success exit, and the time value each decoded timestamp is built from has 1 <= Year() <= 9999 established — for the local time after the offset is applied, not for the UTC fields (TAB-DATEVAL); the binary timestamp layout uses the codecs Ion 1.0 prescribes on both sides — VarInt offset, VarUInt calendar fields, decimal fraction with VarInt exponent and Int coefficient (TAB-CODEC, timestamp obligations) — and timestampLen measures exactly the operands appendTimestamp appends, with the same codec, every unmeasured operand being a one-byte VarUInt by its interval (TAB-LENPAY, timestamp pair); calendar fields and fraction digits are narrowed only within range (NUM-NARROW, timestamp obligations) and the fraction rounding never extracts 64 bits from a larger big.Int (NUM-BIG); every index and slice bound the timestamp parser applies to its input string is inside the string (NUM-INDEX, NUM-SLICE, timestamp.go obligations — found F30: ParseTimestamp of 2000-01-01T00:00:00.123 panicked); the limits of the data model are drawn where the specification draws them — offset hours below 24, minutes below 60, years 1..9999, nine fraction digits kept, calendar fields at most 10000 (TAB-BOUNDS, timestamp obligations).",
@@ -305,22 +326,23 @@ var registry = map[string]*Property{
 		},
 	},
 	"C16": {
-		Decided:    "Only the determinism clause: MarshalText asks for sorted map keys and with that option encodeMap sorts the keys before emitting any field (ORD-SORTMAP); nothing reachable from Marshal*/Encoder/Writer methods consults a time-, random- or schedule-dependent source, and every map range has an order-insensitive body (OWN-NONDET); the one narrowing on the encode path, int64(v.Uint()), happens only under reflect kinds whose values fit (NUM-NARROW, marshal.go); every struct type without exported fields that the decoder recognises by identity (big.Int, Decimal, Timestamp, time.Time) is recognised by the encoder before the generic field walk (TAB-OPAQUE); every reflect.Kind the decoder accepts as a target is dispatched on by the encoder (TAB-KIND); a Go string marshalled as a symbol is written by its text, never through the '$n'-interpreting string API (OWN-TEXTAUTH, marshal obligations); no append in the field, marshal and unmarshal code keeps results of repeated appends to one fixed base slice, so field index paths of siblings never share a backing array (OWN-APPENDALIAS).",
+		Decided:    "Only the determinism clause: MarshalText asks for sorted map keys and with that option encodeMap sorts the keys before emitting any field (ORD-SORTMAP); nothing reachable from Marshal*/Encoder/Writer methods consults a time-, random- or schedule-dependent source, and every map range has an order-insensitive body (OWN-NONDET); the one narrowing on the encode path, int64(v.Uint()), happens only under reflect kinds whose values fit (NUM-NARROW, marshal.go); every struct type without exported fields that the decoder recognises by identity (big.Int, Decimal, Timestamp, time.Time) is recognised by the encoder before the generic field walk (TAB-OPAQUE); every reflect.Kind the decoder accepts as a target is dispatched on by the encoder (TAB-KIND); a Go string marshalled as a symbol is written by its text, never through the '$n'-interpreting string API (OWN-TEXTAUTH, marshal obligations); no append in the field, marshal and unmarshal code keeps results of repeated appends to one fixed base slice, so field index paths of siblings never share a backing array (OWN-APPENDALIAS). A case-insensitive field match never ends the field search before every candidate was compared exactly (ORD-EXACTFIRST); the comparator of the key sort compares the keys themselves (ORD-SORTMAP); no exported function ignores a named parameter (OWN-PARAMUSED).",
 		Necessary:  "Go's map iteration order is random, so an unsorted map encode or any other nondeterminism source makes MarshalText output differ between runs for the same value.",
 		NotDecided: "value equality after the round trip: field paths through embedded structs, name matching, map keys, pointer/nil handling — behaviour of reflection over caller types",
-		Technique:  "SSA dominance + call-graph reachability from the output API; type-identity and reflect.Kind tables extracted from SSA comparisons; loop/base analysis of append calls; value flow for OWN-TEXTAUTH",
+		Technique:  "SSA dominance + call-graph reachability from the output API; type-identity and reflect.Kind tables extracted from SSA comparisons; loop/base analysis of append calls; value flow for OWN-TEXTAUTH" + "; loop-structure check around EqualFold (no return reachable without a back edge); comparator purity check; SSA referrer check of parameters",
 		DesignRef:  "DESIGN.md §3.5, §3.6, §4 C16",
-		Rules:      []Rule{rOrdSortMap, rOwnNondet, only(rNarrow, 1, posHas("ion/marshal.go")), rOpaque, rKind, only(rTextAuth, 1, posHas("ion/marshal.go", "ion/unmarshal.go")), only(rAppAlias, 2, posHas("ion/fields.go", "ion/marshal.go", "ion/unmarshal.go"))},
+		Rules:      []Rule{rOrdSortMap, rOwnNondet, only(rNarrow, 1, posHas("ion/marshal.go")), rOpaque, rKind, only(rTextAuth, 1, posHas("ion/marshal.go", "ion/unmarshal.go")), only(rAppAlias, 2, posHas("ion/fields.go", "ion/marshal.go", "ion/unmarshal.go")), rExactFst, rParamUse},
 	},
 	"C17": {
-		Decided:    "In unmarshal.go: token text and the other nil-if-unknown pointer fields are tested before use (NIL-FIELD); accessor results are dereferenced only under the non-null precondition (NIL-ACC, NIL-ARG); Decoder.Decode/DecodeTo return the reader's error or ErrNoInput, never nil, when Next() reports no value (ORD-NOINPUT); every reflective numeric store is dominated by the matching Overflow test on the same value and operand, every signed-to-unsigned conversion by a sign test, every big.Int extraction by IsUint64 (NUM-REFLECT, NUM-NARROW, NUM-BIG in unmarshal.go); a reflective Set under a type-identity test stores a value of exactly that type (TAB-REFLECTSET); every index in unmarshal.go is in bounds (NUM-INDEX, unmarshal obligations).",
+		Decided:    "In unmarshal.go: token text and the other nil-if-unknown pointer fields are tested before use (NIL-FIELD); accessor results are dereferenced only under the non-null precondition (NIL-ACC, NIL-ARG); Decoder.Decode/DecodeTo return the reader's error or ErrNoInput, never nil, when Next() reports no value (ORD-NOINPUT); every reflective numeric store is dominated by the matching Overflow test on the same value and operand, every signed-to-unsigned conversion by a sign test, every big.Int extraction by IsUint64 (NUM-REFLECT, NUM-NARROW, NUM-BIG in unmarshal.go); a reflective Set under a type-identity test stores a value of exactly that type (TAB-REFLECTSET); every index in unmarshal.go is in bounds (NUM-INDEX, unmarshal obligations). A case-insensitive field match never ends the field search before every candidate was compared exactly (ORD-EXACTFIRST); under each IntSize() case the accessor reached is wide enough (TAB-INTSIZE); no typed accessor answers successfully before the value's type was read (TAB-ACCTYPE).",
 		Necessary:  "A symbol without text ($0) or a typed null reaching an unguarded dereference panics instead of returning an error (F9, fixed); a Decoder that returns nil at the end of the stream never reports ErrNoInput.",
 		NotDecided: "the value × target conversion table, the reader's position after a failed decode",
-		Technique:  "SSA must-dataflow of nil facts; path search to exits; branch-fact dominance of Overflow*/IsUint64 tests; " + numTech,
+		Technique:  "SSA must-dataflow of nil facts; path search to exits; branch-fact dominance of Overflow*/IsUint64 tests; " + numTech + "; loop-structure check around EqualFold; enum value-set dataflow of IntSize(); path search for a type read before successful exits of accessors",
 		DesignRef:  "DESIGN.md §3.2, §3.5, §4 C17",
 		Rules: []Rule{
 			{"NIL-FIELD", rules.NilField(rules.ScopeUnmarshal, 2)}, {"NIL-ACC", rules.NilAcc(rules.ScopeUnmarshal, 10)}, {"NIL-ARG", rules.NilArg(rules.ScopeUnmarshal, 0)}, rOrdNoInput,
 			rReflect, only(rBig, 1, posHas("ion/unmarshal.go")), only(rNarrow, 2, posHas("ion/unmarshal.go")), rReflSet, only(rIndex, 1, posHas("ion/unmarshal.go")),
+			rExactFst, rIntSize, rAccType,
 		},
 	},
 	"C18": {
@@ -342,17 +364,34 @@ var registry = map[string]*Property{
 		},
 	},
 	"C20": {
-		Decided:    "In cmd/ion-go: a possibly-nil accessor result (typed null) is dereferenced only where known non-nil and is not passed to a callee that dereferences it unguarded (NIL-ACC, NIL-ARG scoped to the command); the copy loop never extracts 64 bits from a big.Int without IsInt64/IsUint64 and never narrows a number out of range (NUM-BIG, NUM-NARROW scoped to the command); it never hands a token's text to a '$n'-interpreting Writer method (OWN-TEXTAUTH, command obligations); every Writer value method is called only under the reader Type() it writes, every accessor only under the type it reads, every Ion type has a writing arm and typed nulls go to WriteNullType on the IsNull() edge (TAB-COPYLOOP); every map field the command's writers assign into is initialised where the struct is built (NIL-MAP).",
+		Decided:    "In cmd/ion-go: a possibly-nil accessor result (typed null) is dereferenced only where known non-nil and is not passed to a callee that dereferences it unguarded (NIL-ACC, NIL-ARG scoped to the command); the copy loop never extracts 64 bits from a big.Int without IsInt64/IsUint64 and never narrows a number out of range (NUM-BIG, NUM-NARROW scoped to the command); it never hands a token's text to a '$n'-interpreting Writer method (OWN-TEXTAUTH, command obligations); every Writer value method is called only under the reader Type() it writes, every accessor only under the type it reads, every Ion type has a writing arm and typed nulls go to WriteNullType on the IsNull() edge (TAB-COPYLOOP); every map field the command's writers assign into is initialised where the struct is built (NIL-MAP). Under each IntSize() case of the copy loop the accessor reached is wide enough (TAB-INTSIZE); output files are opened with O_TRUNC, O_APPEND or O_EXCL (TAB-OPENFLAGS).",
 		Necessary:  "The copy loop reads every scalar through the nil-returning accessors; an unguarded dereference is a panic on null.int and friends (part of F22, fixed).",
 		NotDecided: "output equivalence, event stream well-formedness (which text helper renders which type), reporting of write failures (11 write errors are assigned to a shadowed err and lost), the panic(err) calls in stringify/symbolify/clobify",
-		Technique:  "SSA must-dataflow of nil facts with inferred callee preconditions; enum value-set dataflow of the reader Type() at every Reader accessor and Writer method call of the copy loop; branch-fact dominance for big.Int extraction; value flow for OWN-TEXTAUTH",
+		Technique:  "SSA must-dataflow of nil facts with inferred callee preconditions; enum value-set dataflow of the reader Type() at every Reader accessor and Writer method call of the copy loop; branch-fact dominance for big.Int extraction; value flow for OWN-TEXTAUTH" + "; enum value-set dataflow of IntSize(); constant flag check of os.OpenFile",
 		DesignRef:  "DESIGN.md §3.2, §4 C20",
-		Rules:      []Rule{{"NIL-ACC", rules.NilAcc(rules.ScopeCmd, 1)}, {"NIL-ARG", rules.NilArg(rules.ScopeCmd, 1)}, {"NUM-BIG", rules.NumBig(rules.ScopeCmd, 0)}, {"NUM-NARROW", rules.NumNarrow(rules.ScopeCmd, nil, 0)}, only(rTextAuth, 0, posHas("cmd/")), rCopyLoop, {"NIL-MAP", rules.NilMap(rules.ScopeCmd, 1)}},
+		Rules:      []Rule{{"NIL-ACC", rules.NilAcc(rules.ScopeCmd, 1)}, {"NIL-ARG", rules.NilArg(rules.ScopeCmd, 1)}, {"NUM-BIG", rules.NumBig(rules.ScopeCmd, 0)}, {"NUM-NARROW", rules.NumNarrow(rules.ScopeCmd, nil, 0)}, only(rTextAuth, 0, posHas("cmd/")), rCopyLoop, {"NIL-MAP", rules.NilMap(rules.ScopeCmd, 1)}, rIntSize, rOpenFl},
 	},
 }
 
 // devRules: every rule by name, for `ionlint -dev RULE`.
 var devRules = map[string]Rule{
+	"ORD-SORTMAP":     rOrdSortMap,
+	"NUM-FLAGOR":      rFlagOr,
+	"NUM-ZEROSIGN":    rZeroSign,
+	"ORD-DECSIGN":     rDecSign,
+	"NUM-BIGDIV":      rBigDiv,
+	"TAB-INTSIZE":     rIntSize,
+	"TAB-OPENFLAGS":   rOpenFl,
+	"OWN-PARAMUSED":   rParamUse,
+	"ORD-SEPSTATE":    rSepState,
+	"ORD-EXACTFIRST":  rExactFst,
+	"OWN-STOPCHAR":    rStopChar,
+	"TAB-WSSET":       rWSSet,
+	"ORD-APPENDEACH":  rAppEach,
+	"TAB-LSTFIRSTANN": rLSTAnn,
+	"ORD-BSCLEAR":     rBSClear,
+	"ORD-TOKFINISH":   rTokFin,
+	"TAB-ACCTYPE":     rAccType,
 	"NUM-NARROW":      {"NUM-NARROW", rules.NumNarrow(rules.ScopeNum, rules.NarrowResiduals, 0)},
 	"NUM-SHIFT":       {"NUM-SHIFT", rules.NumShift(rules.ScopeNum, rules.ShiftResiduals, 0)},
 	"NUM-EXP32":       {"NUM-EXP32", rules.NumArith32(rules.ScopeNum, nil, 0)},
